@@ -41,6 +41,8 @@ func init() {
 			"the lazy plugin load is re-armed before every round and three yield profiles (off, Gosched, Gosched+sleep) rotate; every outcome (value/error, data-tree call log, " +
 			"program listing) is compared with the same operation's outcome obtained sequentially — before the round in even rounds, after it in odd rounds, so that the concurrent runs are then the first " +
 			"ever to perform their operations — and the sequential pass itself re-runs every machine (history independence); " +
+			"the shared machines are compiled in list order or in reverse order (per worker process), and in three of four processes every machine is run right after its compilation and again when all " +
+			"are compiled (a result does not depend on what is compiled later); " +
 			"the worker is built with -race and the driver reads the race log; distinct_nontrivial = distinct (operation, outcome) pairs observed concurrently",
 		block: 4,
 		assumptions: []string{
